@@ -202,12 +202,15 @@ Definition demux_unit (pkts : list bytes) : option access_unit :=
 (* a whole single-PID stream: a new unit starts at every packet with
    payload_unit_start_indicator = 1; [cur] holds the packets (reversed) of the
    unit being collected *)
+Definition pkt_starts (p : bytes) : bool :=      (* payload_unit_start_indicator *)
+  match p with _ :: b1 :: _ => (b1 / 64) mod 2 =? 1 | _ => false end.
+Definition pkt_cc (p : bytes) : N := nth 3 p 0 mod 16.   (* continuity_counter *)
+
 Fixpoint split_units (cur : list bytes) (pkts : list bytes) : list (list bytes) :=
   match pkts with
   | [] => match cur with [] => [] | _ => [rev cur] end
   | p :: t =>
-    let starts := match p with _ :: b1 :: _ => (b1 / 64) mod 2 =? 1 | _ => false end in
-    if starts then
+    if pkt_starts p then
       match cur with
       | [] => split_units [p] t
       | _ => rev cur :: split_units [p] t
@@ -228,7 +231,7 @@ Fixpoint cc_chain_ok (prev : option N) (pkts : list bytes) : bool :=
   match pkts with
   | [] => true
   | p :: t =>
-    let cc := nth 3 p 0 mod 16 in
+    let cc := pkt_cc p in
     (match prev with None => true | Some c => cc =? (c + 1) mod 16 end) && cc_chain_ok (Some cc) t
   end.
 
